@@ -37,8 +37,8 @@ CHECKS = {
    text="Path hash: Jamcrc::checksum = bit-serial JAMCRC (CRC-32 reflected 0xEDB88320, init 0xFFFFFFFF, no final inversion) for byte strings of any length, with the table-vs-bitwise lemma (Verus); SHA-1 padding and serialisation (Kani). SHA-1's compression function, the zlib-backed shader-key CRC and lower-casing stay in the trusted base.",
    note=_COMMON_NOTE, technique="Verus loop-invariant proof + bit-vector lemma; Kani harnesses for SHA-1 framing"),
  "C13": dict(level="proof",
-   text="Block level proved for all contents: 565 expansion, BC1 (all 2^64 blocks, both modes), BC3 alpha palette and lanes with frame, BC3 and BC5 blocks, copy_block_buffer content+frame+bounds for any image size up to 65536^2 (Verus), RGBA byte order of Texture::decode. The image-level drivers are bounded (listed image sizes).",
-   note=_COMMON_NOTE + " BC1 blends accept any integer rounding within 2/3 of the exact value; the alpha of BC1's black entry is unconstrained (as the property says). Texture::from_existing's header parse is not inside a proved unit.", technique="Kani loop-free full-domain proof harnesses over the block decoders + Verus proof of copy_block_buffer"),
+   text="Block level proved for all contents: 565 expansion, BC1 (all 2^64 blocks, both modes), BC3 alpha palette and lanes with frame, BC3 and BC5 blocks, copy_block_buffer content+frame+bounds for any image size up to 65536^2 (Verus), RGBA byte order of Texture::decode. Image level proved by Verus for ANY image size up to 65536^2 on the instantiated block_decoder! macro (decode_bc1/bc3/bc5): Err exactly on short data / short image buffer with the image untouched, otherwise pixel (x,y) = texel (x mod 4, y mod 4) of decoded block (y/4)*ceil(w/4)+x/4, pixels past w*h untouched, no out-of-bounds index; the block decoders enter that proof as assumed contracts discharged by the Kani block units.",
+   note=_COMMON_NOTE + " The macro is instantiated textually from its real invocation and its `(a..b).for_each(|v| {..})` statements are rewritten to `for v in a..b {..}` for Verus (rules X7/X8, DESIGN.md 9.6); usize is taken as 64-bit there. BC1 blends accept any integer rounding within 2/3 of the exact value; the alpha of BC1's black entry is unconstrained (as the property says). Texture::from_existing's header parse is not inside a proved unit.", technique="Kani loop-free full-domain proof harnesses over the block decoders + Verus proofs of copy_block_buffer and of the three image drivers (nested-loop invariants)"),
  "C14": dict(level="other",
    text="Half-tuple readers, colour-table rows (legacy 32 B all contents; Dawntrail 64 B thorough), dye-table bit fields for all words, plain material/shader records, sampler record (thorough), find_node (bounded table), build_selector = base-31 polynomial mod 2^32 for key lists of any length (Verus). Whole-file material and shader-package grammars are not decided.",
    note=_COMMON_NOTE, technique="Kani proof harnesses over derive-generated records + Verus proof of build_selector"),
